@@ -128,3 +128,56 @@ func indexedFromField(v ssa.Value, recv string) bool {
 	}
 	return false
 }
+
+// c02NoPutBack (C02.A3, clause 5): quarantining a declined address never grows the free list.  Every append stored to
+// Pool.available in MarkUnavailable, or in a method of Pool it calls (depth 2), is the removal idiom — both operands are
+// slices of Pool.available itself; an append of anything else puts an address (back) into circulation from the
+// quarantine path.
+func c02NoPutBack(c *Ctx, f *ssa.Function) {
+	fromAvail := func(v ssa.Value) bool {
+		for i := 0; i < 6; i++ {
+			switch x := v.(type) {
+			case *ssa.Slice:
+				v = x.X
+				continue
+			case *ssa.UnOp:
+				return strings.HasSuffix(flow.FieldOwner(x.X), "Pool.available")
+			case *ssa.Extract: // range over the field yields elements, not the list
+				return false
+			}
+			break
+		}
+		return false
+	}
+	bad := ""
+	n := 0
+	seen := map[*ssa.Function]bool{}
+	var visit func(g *ssa.Function, depth int)
+	visit = func(g *ssa.Function, depth int) {
+		if g == nil || seen[g] || depth > 2 || len(g.Blocks) == 0 {
+			return
+		}
+		seen[g] = true
+		flow.Instrs(g, func(in ssa.Instruction) {
+			if st, ok := in.(*ssa.Store); ok && strings.HasSuffix(flow.FieldOwner(st.Addr), "Pool.available") {
+				n++
+				call, ok := st.Val.(*ssa.Call)
+				if !ok {
+					return // re-slicing / filtered copy: cannot add an element that was not there
+				}
+				if b, ok := call.Call.Value.(*ssa.Builtin); ok && b.Name() == "append" && len(call.Call.Args) == 2 {
+					if !(fromAvail(call.Call.Args[0]) && fromAvail(call.Call.Args[1])) {
+						bad = "the append at " + c.P.Pos(instrPos(in)) + " (in " + load.ShortFunc(g) + ") adds a value that is not a slice of the free list itself: the declined address re-enters Pool.available from the quarantine path and is offered again once the list drains to it"
+					}
+				}
+			}
+			if ci, ok := in.(ssa.CallInstruction); ok {
+				if h := ci.Common().StaticCallee(); h != nil && flow.RecvTypeName(h) == "Pool" {
+					visit(h, depth+1)
+				}
+			}
+		})
+	}
+	visit(f, 0)
+	c.R.Check("C02.A3.declineQuarantine", load.ShortFunc(f), "nothing is appended to the free list", c.P.Pos(f.Pos()), bad == "" && n > 0, bad+ifEmpty(bad, "no store to Pool.available found (rule would be vacuous)"))
+}
